@@ -1,11 +1,13 @@
 use crate::run::Suite;
 use std::path::Path;
 
+pub mod c06;
 pub mod c08;
 pub mod c21;
 
 pub fn for_property(p: &str) -> Vec<Suite> {
     match p {
+        "C06" => c06::suites(),
         "C08" => c08::suites(),
         "C21" => c21::suites(),
         _ => vec![],
